@@ -86,6 +86,8 @@ pub struct Shared {
     pub local_id: String,
     /// E2E only: automatic getinfo replies are delayed by this many (real) milliseconds
     pub getinfo_delay_ms: u64,
+    /// E2E only: the autopilot leaves `pay` requests unanswered while this is set
+    pub hold_pays: bool,
 }
 
 impl Shared {
@@ -298,6 +300,7 @@ impl World {
             auto_getinfo: u32::MAX,
             local_id: local_pubkey().to_string(),
             getinfo_delay_ms: 0,
+            hold_pays: false,
         }));
         let n = scn.htlcs.len();
         let c = SOCK_COUNTER.fetch_add(1, std::sync::atomic::Ordering::Relaxed);
@@ -371,22 +374,9 @@ impl World {
                     // earlier lifetimes + downtimes, all on the 5 s grid) is made visible to it
                     // by ageing the stored attempt time accordingly.
                     self.grid_s += down_s;
-                    let keys: Vec<Vec<String>> = s.node.datastore.keys().cloned().collect();
-                    for k in keys {
-                        if k.last().map(|x| x == "state").unwrap_or(false) {
-                            let (st, g) = s.node.datastore[&k].clone();
-                            if let Ok(mut v) = serde_json::from_str::<Value>(&st) {
-                                if let Some(t) = v.get("Pending").and_then(|p| p.get("attempt_time_seconds")).and_then(|t| t.as_u64()) {
-                                    let (written, aged) = self.pending_meta.get(&k).cloned().unwrap_or((self.grid_s, 0));
-                                    let total = self.grid_s.saturating_sub(written);
-                                    let delta = total.saturating_sub(aged);
-                                    self.pending_meta.insert(k.clone(), (written, total));
-                                    v["Pending"]["attempt_time_seconds"] = json!(t.saturating_sub(delta));
-                                    s.node.datastore.insert(k, (v.to_string(), g));
-                                }
-                            }
-                        }
-                    }
+                    drop(s);
+                    self.age_stored_attempts();
+                    let mut s = self.shared.lock().unwrap();
                     s.life += 1;
                     s.push(Ev::Crash { down_s, lose_last });
                     drop(s);
@@ -407,6 +397,30 @@ impl World {
         self.mon.at_end(&s, &self.scn, &self.classes, &self.delivered, &self.answered);
         if self.real_start.elapsed() > Duration::from_millis(2500) {
             self.inconclusive = true;
+        }
+    }
+
+    /// Every stored `Pending.attempt_time_seconds` is moved back so that (real now - stored) equals the grid
+    /// time (ticks + downtimes) that passed since that record was written.
+    fn age_stored_attempts(&mut self) {
+        let mut s = self.shared.lock().unwrap();
+        let keys: Vec<Vec<String>> = s.node.datastore.keys().cloned().collect();
+        for k in keys {
+            if k.last().map(|x| x == "state").unwrap_or(false) {
+                let (st, g) = s.node.datastore[&k].clone();
+                if let Ok(mut v) = serde_json::from_str::<Value>(&st) {
+                    if let Some(t) = v.get("Pending").and_then(|p| p.get("attempt_time_seconds")).and_then(|t| t.as_u64()) {
+                        let (written, aged) = self.pending_meta.get(&k).cloned().unwrap_or((self.grid_s, 0));
+                        let total = self.grid_s.saturating_sub(written);
+                        let delta = total.saturating_sub(aged);
+                        self.pending_meta.insert(k.clone(), (written, total));
+                        if delta > 0 {
+                            v["Pending"]["attempt_time_seconds"] = json!(t.saturating_sub(delta));
+                            s.node.datastore.insert(k, (v.to_string(), g));
+                        }
+                    }
+                }
+            }
         }
     }
 
@@ -839,6 +853,9 @@ impl World {
             tokio::time::sleep(Duration::from_millis(200)).await;
         }
         self.grid_s += secs;
+        // the wall clock moves with virtual time: stored attempt times grow older by the tick as well
+        // (the plugin reads the real clock, which does not move, so the stored value is moved instead)
+        self.age_stored_attempts();
     }
 
     fn block(&mut self, lt: &Lifetime, h: u32) {
